@@ -27,7 +27,7 @@ def literals_prefix_free():
 
 def _run_seed(args):
     seed, cseed, n = args
-    env = dict(os.environ, PYTHONHASHSEED=str(seed), PYTHONPATH=ROOT)
+    env = dict(os.environ, PYTHONHASHSEED=str(seed), PYTHONPATH=(os.environ.get("EINX_VERIF_REPO", "") + os.pathsep + ROOT).lstrip(os.pathsep))
     r = subprocess.run([sys.executable, "-m", "vf.props._digest", str(cseed), str(n)], capture_output=True, text=True, env=env, cwd=ROOT, timeout=3000)
     return seed, [json.loads(l) for l in r.stdout.splitlines() if l.startswith("{")], r.stderr[-500:] if r.returncode else ""
 
